@@ -765,6 +765,20 @@ func (h *history) apply(ctx context.Context, op writeOp) {
 		h.alter(op.table, op.renew)
 	case "Reorder":
 		h.reorder(op.table)
+	case "MovePK":
+		// a write that changes a row's primary key
+		var q string
+		var args []interface{}
+		switch o := op.rows[0].(type) {
+		case *Wide:
+			q, args = "UPDATE wides SET id = ? WHERE id = ?", []interface{}{op.rows[1].(*Wide).Id, o.Id}
+		case *Pair:
+			n := op.rows[1].(*Pair)
+			q, args = "UPDATE pairs SET a = ?, b = ? WHERE a = ? AND b = ?", []interface{}{n.A, n.B, o.A, o.B}
+		case *Tiny:
+			q, args = "UPDATE tinies SET k = ? WHERE k = ?", []interface{}{op.rows[1].(*Tiny).K, o.K}
+		}
+		_, err = h.db.QueryExecer(ctx).ExecContext(ctx, q, args...)
 	case "SoftDelete", "Undelete":
 		var val interface{}
 		if op.kind == "SoftDelete" {
@@ -858,6 +872,9 @@ func runHistory(run *vlib.Run, i int, fixed *fixedPlan) {
 		h.db.InsertRow(bg, genRow(r, "pairs"))
 		h.db.InsertRow(bg, genRow(r, "tinies"))
 	}
+	// rows with well-known keys (moved to another key by the pk-move histories)
+	h.db.InsertRow(bg, &Pair{A: 5, B: "old", N: 77})
+	h.db.InsertRow(bg, &Tiny{K: "mv-old", Cnt: 77})
 
 	// a table that is wider than its Go model: a soft-delete column the struct
 	// does not map, used by live queries through SelectOptions.Where and
@@ -1001,6 +1018,57 @@ func runHistory(run *vlib.Run, i int, fixed *fixedPlan) {
 		w := r.Intn(nWriters)
 		at := len(plans[w]) - r.Intn(len(plans[w])/3+1) // late: little comes after it
 		mid := []writeOp{{kind: "RenewTableID", table: table, renew: r.Intn(2) == 0}, write}
+		plans[w] = append(plans[w][:at:at], append(mid, plans[w][at:]...)...)
+	}
+
+	var pkSentinels []*liveQuery
+	if fixed == nil && !faulty && schemaChange == "" && r.Intn(5) == 0 {
+		// writes that change a row's primary key, watched by live queries on the
+		// old key, on the new key and on another column of the row
+		schemaChange = "pk-move"
+		table := tableNames[r.Intn(len(tableNames))]
+		var ensure []writeOp
+		var oldRow, newRow interface{}
+		own := func(f sqlgen.Filter) filterDesc {
+			fd := filterDesc{filter: f, reps: map[string]string{}}
+			for c := range f {
+				fd.reps[c] = "own"
+			}
+			return fd
+		}
+		var byOld, byNew, byOther filterDesc
+		switch table {
+		case "wides":
+			oldRow, newRow = &Wide{Id: 1 + r.Int63n(3)}, &Wide{Id: 900 + r.Int63n(50)}
+			byOld, byNew = own(sqlgen.Filter{"id": oldRow.(*Wide).Id}), own(sqlgen.Filter{"id": newRow.(*Wide).Id})
+			byOther = own(sqlgen.Filter{"flag": true})
+		case "pairs":
+			oldRow, newRow = &Pair{A: 5, B: "old", N: 77}, &Pair{A: 6, B: "new", N: 77}
+			ensure = []writeOp{{kind: "UpsertRow", table: table, rows: []interface{}{oldRow}}}
+			byOld, byNew = own(sqlgen.Filter{"a": int32(5), "b": "old"}), own(sqlgen.Filter{"a": int32(6), "b": "new"})
+			byOther = own(sqlgen.Filter{"n": int64(77)})
+		default:
+			oldRow, newRow = &Tiny{K: "mv-old", Cnt: 77}, &Tiny{K: "mv-new", Cnt: 77}
+			ensure = []writeOp{{kind: "UpsertRow", table: table, rows: []interface{}{oldRow}}}
+			byOld, byNew = own(sqlgen.Filter{"k": "mv-old"}), own(sqlgen.Filter{"k": "mv-new"})
+			byOther = own(sqlgen.Filter{"cnt": uint16(77)})
+		}
+		pkSentinels = []*liveQuery{{table: table, row: r.Intn(2) == 0, fd: byOld}, {table: table, fd: byNew}, {table: table, fd: byOther}}
+		w := r.Intn(nWriters)
+		at := r.Intn(len(plans[w]) + 1)
+		if r.Intn(2) == 0 {
+			ensure = nil // the row exists since before the queries started
+		}
+		mid := append(ensure, writeOp{kind: "MovePK", table: table, rows: []interface{}{oldRow, newRow}})
+		if r.Intn(3) == 0 {
+			mid = append(mid, writeOp{kind: "MovePK", table: table, rows: []interface{}{newRow, oldRow}})
+			if r.Intn(2) == 0 {
+				mid = append(mid, writeOp{kind: "MovePK", table: table, rows: []interface{}{oldRow, newRow}})
+			}
+		}
+		if r.Intn(3) == 0 {
+			mid = []writeOp{{kind: "Tx", ok: true, tx: mid}}
+		}
 		plans[w] = append(plans[w][:at:at], append(mid, plans[w][at:]...)...)
 	}
 
@@ -1187,6 +1255,21 @@ func runHistory(run *vlib.Run, i int, fixed *fixedPlan) {
 			h.byID[q.id] = q
 		}
 		perRerunner = append(perRerunner, qs)
+	}
+	if pkSentinels != nil {
+		for _, q := range pkSentinels {
+			qid++
+			q.id = qid
+			h.queries = append(h.queries, q)
+			h.byID[q.id] = q
+		}
+		if r.Intn(2) == 0 {
+			perRerunner = append(perRerunner, pkSentinels)
+		} else {
+			for _, q := range pkSentinels {
+				perRerunner = append(perRerunner, []*liveQuery{q})
+			}
+		}
 	}
 	if lookupSentinel != nil {
 		qid++
